@@ -162,7 +162,7 @@ def _collect(sub, n, sd, tier='quick'):
             pk = pickle.dumps(case, protocol=4)
             if b is None:
                 stats.buckets[bkey] = dict(count=1, tag=tag, sub=sub.name, sig=sig, pickle=pk, kind=f.kind,
-                                          detail=f.detail[:2000], where=f.where, seed=sd)
+                                          detail=f.detail[:2000], where=f.where, seed=sd, n=n)
             else:
                 b['count'] += 1
                 if len(pk) < len(b['pickle']):
@@ -178,7 +178,7 @@ def _collect(sub, n, sd, tier='quick'):
                 pk = pickle.dumps(case, protocol=4)
                 b = stats.buckets.get(bkey)
                 if b is None:
-                    stats.buckets[bkey] = dict(count=1, tag=tag, sub=sub.name, sig=sig, pickle=pk, kind=f.kind, detail=f.detail[:2000], where=f.where, seed=sd)
+                    stats.buckets[bkey] = dict(count=1, tag=tag, sub=sub.name, sig=sig, pickle=pk, kind=f.kind, detail=f.detail[:2000], where=f.where, seed=sd, n=n)
                 else:
                     b['count'] += 1
                     if len(pk) < len(b['pickle']):
@@ -416,6 +416,12 @@ def run_property(mod, tier, sd, replay=None, only=None):
             per = n // NSHARDS
             for k in range(NSHARDS):
                 jobs.append((mod.__name__, sub.name, per, sd * 1000 + k + 1, tier))
+        elif tier == 'quick' and n >= 500 and os.environ.get('VERIF_QUICK_PARALLEL', '1') == '1':
+            # quick tier: up to 8 shards per sub-check (seeds sd*1000+k) so that the case counts can be generous
+            qs = min(8, n // 250)
+            per = n // qs
+            for k in range(qs):
+                jobs.append((mod.__name__, sub.name, per, sd * 1000 + k + 1, tier))
         else:
             jobs.append((mod.__name__, sub.name, n, sd, tier))
     # NOTE: ProcessPoolExecutor workers are not daemonic, so checks may start worker pools themselves (C17, C18)
@@ -426,7 +432,7 @@ def run_property(mod, tier, sd, replay=None, only=None):
             results = list(pool.map(_shard_job, jobs))
     elif tier == 'quick' and len(jobs) > 1 and os.environ.get('VERIF_QUICK_PARALLEL', '1') == '1':
         ctx = multiprocessing.get_context('fork')
-        with ProcessPoolExecutor(min(8, len(jobs)), mp_context=ctx) as pool:
+        with ProcessPoolExecutor(min(16, len(jobs)), mp_context=ctx) as pool:
             results = list(pool.map(_shard_job, jobs))
     else:
         results = [_shard_job(j) for j in jobs]
@@ -447,7 +453,7 @@ def run_property(mod, tier, sd, replay=None, only=None):
             known_hit[b['tag']] = known_hit.get(b['tag'], 0) + b['count']
             continue
         sub = subs_by_name[b['sub']]
-        n = sub.quick if tier == 'quick' else max(sub.thorough // NSHARDS, sub.quick)
+        n = b.get('n') or (sub.quick if tier == 'quick' else max(sub.thorough // NSHARDS, sub.quick))
         case = pickle.loads(b['pickle'])
         try:
             if not b.get('enum'):
